@@ -99,7 +99,10 @@ def main(argv=None):
         errors += [dict(obligation=o["name"], **e) for e in o["errors"]]
         if o["twin"] is not None and not o["twin"]["reached"] and o["ok"] == 0 and not o["known"] and not o["violations"]:
             errors.append(dict(obligation=o["name"], msg="vacuous: reachability twin never reached a property assertion"))
-        if o["exhausted"] and not o["violations"]:
+        if o["exhausted"] and o["paths"] == 0 and not o["violations"] and not o["known"] and not o["errors"]:
+            errors.append(dict(obligation=o["name"], msg="vacuous: every path was aborted by an assumption, no path completed"))
+            o["errors"] = o["errors"] + [dict(msg="vacuous")]
+        if o["exhausted"] and not o["violations"] and not o["errors"]:
             discharged += 1
         elif not o["violations"] and not o["errors"]:
             inconcl.append(o["name"])
